@@ -101,6 +101,18 @@ def run_spec(spec, props=("C08",)):
             A.outcomes.add(hsh(np.round(R, 6).tolist()))
             if not np.isfinite(d) or d > 1e-6:
                 A.add(V("C08", "SIR_pair_based_pure_IC", "tree:" + mode, "not_exact_on_tree", "%s: differs from the master equation by %.3g (R(tmax)=%.6f vs %.6f)" % (tag, d, o[3][-1], R[-1]), (), d, 1e-6))
+            # the same with an explicit nodelist in another order (the order of the per-node output only): still exact
+            if n >= 3 and (len(I0) + len(R0)) % 2 == 1:
+                nl = list(reversed(nodes)) if len(I0) == 1 else nodes[1:] + nodes[:1]
+                try:
+                    o2 = EoN.SIR_pair_based_pure_IC(G, tau, gamma, list(I0), initial_recovereds=(list(R0) if R0 else None), nodelist=nl,
+                                                    tmin=0, tmax=spec["tmax"], tcount=spec["tcount"], transmission_weight=tw, recovery_weight=rw)
+                    d2 = maxdev(o2[1:4], (S, I, R))
+                except Exception as e:
+                    A.add(V("C08", "SIR_pair_based_pure_IC", "tree:" + mode + "+nodelist", "exception", "%s, nodelist=%r raised %s: %s" % (tag, nl, type(e).__name__, str(e)[:100]))); continue
+                A.evals += 1
+                if not np.isfinite(d2) or d2 > 1e-6:
+                    A.add(V("C08", "SIR_pair_based_pure_IC", "tree:" + mode + "+nodelist", "not_exact_on_tree", "%s, nodelist=%r: differs from the master equation by %.3g" % (tag, nl, d2), (), d2, 1e-6))
         A.execs = A.evals
         A.sample = {"spec": spec}
         return A.result(props)
